@@ -82,8 +82,21 @@ def check(prop, tier, procs=None, only=None):
     ids = sorted(j.id for j in jobs.values() if prop in j.props and (tier == "thorough" or not j.meta.get("thorough_only")))
     if only:
         ids = [i for i in ids if only in i]
-    print(f"[{prop}] tier={tier} jobs={len(ids)} modules={modules}", flush=True)
-    results, patches = R.run_jobs(ids, modules, timeout_ms=timeout_ms, procs=procs)
+    own = set(ids)
+    lib_ids = []
+    if cfg.get("uses_unit_contracts"):
+        # dependency closure: the unit-layer jobs whose contracts (SymQ) the property's functions are verified against
+        if "contracts.units" not in modules:
+            modules = ["contracts.units"] + list(modules)
+            jobs = R._load_jobs(None, modules)
+        lib_ids = sorted(j.id for j in jobs.values() if j.id not in own and j.id.startswith("units.")
+                         and j.meta.get("family") in ("op", "to", "cmp", "unary"))
+    print(f"[{prop}] tier={tier} jobs={len(ids)} (+{len(lib_ids)} unit-layer dependency jobs) modules={modules}", flush=True)
+    results, patches = R.run_jobs(ids + lib_ids, modules, timeout_ms=timeout_ms, procs=procs)
+    used = set()
+    for r in results:
+        if r["job"] in own:
+            used.update(tuple(e) for e in r.get("unit_events", []))
 
     kf = R.load_known_findings()
     findings = kf.get("findings", [])
@@ -101,10 +114,16 @@ def check(prop, tier, procs=None, only=None):
             continue
         if r["missing_covers"]:
             vacuity.append((r["job"], r["missing_covers"]))
+        is_lib = r["job"] not in own
+        if is_lib and not lib_job_used(r["meta"], used):
+            continue
         functions.update(r["functions"])
         for cl in r["clauses"]:
             tags = cl["props"] or r["props"]
-            if prop not in tags:
+            if is_lib:
+                if not lib_clause_counts(r["meta"], cl["clause"], used):
+                    continue
+            elif prop not in tags:
                 continue
             oid = f"{r['job']}:{cl['clause']}"
             obligations.append(dict(id=oid, job=r["job"], clause=cl["clause"], status=cl["status"], vcs=cl["vcs"],
@@ -126,6 +145,12 @@ def check(prop, tier, procs=None, only=None):
     undecided = [o for o in obligations if o["status"] == "undecided"]
     known_hits = collections.OrderedDict()
     violations = []
+    helper_broken = [o for o in refuted if o["clause"].startswith("helper:")]
+    refuted = [o for o in refuted if not o["clause"].startswith("helper:")]
+    for o in helper_broken[:10]:
+        print(f"HELPER-CONTRACT-BROKEN obligation={o['id']} model={o['model']} (the abstract unit contract that callers "
+              f"are verified against no longer describes the code: proofs above it are not supported)")
+    undecided = undecided + helper_broken
     for o in refuted:
         k = R.match_finding(findings, prop, o["id"], o["meta"])
         if k is not None:
@@ -274,6 +299,37 @@ def check(prop, tier, procs=None, only=None):
           f"refuted={len(violations)} undecided={len(undecided)} engine-errors={len(engine_errors)} "
           f"paths={paths} wall={time.time() - t0:.1f}s exit={status}")
     return status
+
+
+LIB_SI_CLAUSES = {
+    "op:SI-magnitude", "op:result-kind-by-dimensional-analysis", "op:result-is-a-plain-number",
+    "op:defined-by-dimensional-analysis=>no-TypeError", "to:SI-magnitude-unchanged", "to:result-unit-is-target",
+    "cmp:beyond-abs-tol=>ordered-as-SI-magnitudes", "cmp:same-magnitude=>equal-whichever-side", "unary:value",
+    "op:operands-unchanged", "cmp:operands-unchanged", "to:copy-leaves-self-unchanged",
+}
+
+
+def lib_job_used(meta, used):
+    fam = meta.get("family")
+    if fam == "op":
+        return ("op", meta["op"], meta["Ka"], meta["Kb"]) in used
+    if fam == "to":
+        return ("to", meta["kind"]) in used or ("ctor", meta["kind"]) in used
+    if fam == "cmp":
+        return ("cmp", meta["op"], meta["Ka"], meta["Kb"]) in used
+    if fam == "unary":
+        return ("unary", meta["which"], meta["kind"]) in used
+    return False
+
+
+def lib_clause_counts(meta, clause, used):
+    if clause.startswith("helper:"):
+        return True
+    if meta.get("family") == "to" and clause.startswith("self:ctor"):
+        return ("ctor", meta["kind"]) in used
+    if meta.get("family") == "to" and ("to", meta["kind"]) not in used:
+        return False
+    return clause in LIB_SI_CLAUSES
 
 
 def replay_obligation(prop, o, jobs):
